@@ -344,11 +344,7 @@ Apply(s, e) ==
     [] OTHER -> Fail(s, "unknown")
 
 -----------------------------------------------------------------------------
-(* Ghost state — C01/C02 are step properties; the ghosts only count. *)
-GhostInit == [steps |-> 0, created |-> 0]
-GhostStep(g, s, e, t) ==
-  [steps |-> g.steps + 1,
-   created |-> g.created + Cardinality(DOMAIN t.pools \ DOMAIN s.pools)]
+(* Ghost state: defined after the clause helpers below (GhostInit, GhostStep). *)
 
 -----------------------------------------------------------------------------
 (***************************************************************************)
@@ -522,10 +518,112 @@ C02_Conservation(t) ==
 Rejected_NoEffect(s, e, t) == (~e.ok) => t = s
 
 -----------------------------------------------------------------------------
+(***************************************************************************)
+(* Ghost state, from the observed (s, e, t) only.                          *)
+(*   steps, created  counters                                              *)
+(*   blk    the successful single-pool swaps of the current block, in      *)
+(*          order: [who, to, inD, outD, paid, recv] (sandwich detection)   *)
+(*   last   the previous event when it was such a swap with to = who,      *)
+(*          else NoLast (round trips)                                      *)
+(*   gift   coins sent to the coinswap module account by donations and by  *)
+(*          swaps naming it as recipient                                   *)
+(***************************************************************************)
+NoLast == [who |-> "", to |-> "", inD |-> "", outD |-> "", paid |-> 0, recv |-> 0]
+SwapSummary(s, e, t) ==
+  LET g == Legs(s, e, t)[1] IN
+  [who |-> e.who, to |-> e.to, inD |-> e.inDenom, outD |-> e.outDenom, paid |-> g.paid, recv |-> g.recv]
+IsSingleSwapOK(s, e) ==
+  SwapOK(s, e) /\ SwapKnown(s, e) /\ ~IsDouble(s, e.inDenom, e.outDenom)
+
+GhostInit == [steps |-> 0, created |-> 0, blk |-> <<>>, last |-> NoLast, gift |-> EmptyF]
+GhostStep(g, s, e, t) ==
+  [steps |-> g.steps + 1,
+   created |-> g.created + Cardinality(DOMAIN t.pools \ DOMAIN s.pools),
+   blk |-> IF e.name = "EndBlock" THEN <<>>
+           ELSE IF IsSingleSwapOK(s, e) THEN Append(g.blk, SwapSummary(s, e, t))
+           ELSE g.blk,
+   last |-> IF IsSingleSwapOK(s, e) /\ e.to = e.who THEN SwapSummary(s, e, t) ELSE NoLast,
+   gift |-> IF e.ok /\ e.to = MOD /\ e.name = "Donate"
+            THEN Put(g.gift, e.denom, Amt(g.gift, e.denom) + e.amt)
+            ELSE IF e.ok /\ e.to = MOD /\ e.name = "Swap"
+            THEN Put(g.gift, e.outDenom, Amt(g.gift, e.outDenom)
+                                           + (IF SwapKnown(s, e) THEN SwapRecv(s, e, t) ELSE 0))
+            ELSE g.gift]
+
+(* A sells, B sells the same way, A sells back — all in one block *)
+Sandwich(g) ==
+  LET n == Len(g.blk) IN
+  /\ n >= 3
+  /\ LET a == g.blk[n - 2]
+         b == g.blk[n - 1]
+         c == g.blk[n]
+     IN /\ a.who = c.who /\ a.who # b.who
+        /\ a.inD = b.inD /\ a.outD = b.outD
+        /\ c.inD = a.outD /\ c.outD = a.inD
+
+-----------------------------------------------------------------------------
+(***************************************************************************)
+(* DIAGNOSTIC clauses (X01_ / X02_): behaviour beyond the listed           *)
+(* properties.  They never decide a verdict; a failure is logged with the  *)
+(* line that reached it ("clause failures outside this property").         *)
+(***************************************************************************)
+
+(* Pool life cycle.  A pool is WEDGED when no liquidity token exists but its
+   escrow holds coins (all liquidity removed, then any bank send to the
+   escrow): AddLiquidity takes the funded branch and rejects with "liquidity
+   pool invalid" because the supply is zero, one-sided additions mint
+   isqrt(0) - 0 = 0 — nobody can ever own a share of that pool again. *)
+Wedged(t, p) ==
+  /\ t.pools[p].esc \in DOMAIN t.bal /\ t.pools[p].lpt \in DOMAIN t.supply
+  /\ PoolL(t, p) = 0 /\ ~EscEmpty(t, t.pools[p].esc)
+(* liveness of pools as a state predicate: fails in exactly the states (and
+   therefore on exactly the histories) in which some pool is wedged *)
+X01_PoolNotWedged(t) == \A p \in DOMAIN t.pools : ~Wedged(t, p)
+(* ... and the state is absorbing: no message or donation leaves it *)
+X01_WedgedForever(s, e, t) ==
+  \A p \in DOMAIN s.pools : Wedged(s, p) => (p \in DOMAIN t.pools /\ Wedged(t, p))
+(* nobody is ever turned away because "the pool is invalid" *)
+X01_AddNeverLockedOut(s, e) ==
+  (e.name = "AddLiquidity" /\ ~e.ok /\ WellFormed(s)) => Apply(s, e).why # "pool_invalid"
+(* no handler panics (AddUnilateralLiquidity divides by a zero reserve) *)
+X01_NoPanic(e) == ~e.panic
+
+(* Several pools on one standard denom: what leaves the first pool of a
+   routed order is what enters the second *)
+X02_RouteBalanced(s, e, t) ==
+  (SwapOK(s, e) /\ SwapKnown(s, e) /\ IsDouble(s, e.inDenom, e.outDenom)) =>
+    Legs(s, e, t)[1].recv = Legs(s, e, t)[2].paid
+(* selling and immediately selling back at most the proceeds never returns
+   more than was paid (no free round trip; the fee and the floors stay in the
+   pool) — the sandwich only pays through the victim's trade in between *)
+X02_RoundTripNoGain(s, e, t, g) ==
+  (IsSingleSwapOK(s, e) /\ e.to = e.who /\ g.last.who = e.who
+     /\ e.inDenom = g.last.outD /\ e.outDenom = g.last.inD
+     /\ Legs(s, e, t)[1].paid <= g.last.recv)
+  => Legs(s, e, t)[1].recv <= g.last.paid
+(* blocked accounts receive nothing except the tax share of a creation fee *)
+X02_BlockedUntouched(s, e, t) ==
+  \A a \in Blocked \cap DOMAIN s.bal : \A d \in DOMAIN s.bal[a] :
+    (Dl(s, t, a, d) # 0) =>
+      /\ e.name = "AddLiquidity" /\ e.ok /\ Created(s, t) # {}
+      /\ d = s.params.feeDenom /\ Dl(s, t, a, d) = TaxOf(s.params)
+(* the coinswap module account holds only what was sent to it on purpose *)
+X02_ModuleOnlyGifts(t, g) ==
+  (MOD \in DOMAIN t.bal) => \A d \in DOMAIN t.bal[MOD] : t.bal[MOD][d] = Amt(g.gift, d)
+(* a donation moves exactly the donated coin between the two parties *)
+X02_DonateFrame(s, e, t) ==
+  (e.name = "Donate" /\ e.ok) =>
+    /\ FrameOver(s, t, {<<e.who, e.denom>>, <<e.to, e.denom>>})
+    /\ t.pools = s.pools
+    /\ (e.to # e.who => /\ Dl(s, t, e.who, e.denom) = 0 - e.amt
+                        /\ Dl(s, t, e.to, e.denom) = e.amt)
+
+-----------------------------------------------------------------------------
 (* Model-checking universe *)
 CONSTANTS InitStd, InitTok, CFee, FeeNum, FeeDen, UniNum, UniDen, TaxNum, TaxDen,
           Amts, Mins, Liqs, Donations, DlOffs, MaxNow, Senders, Recipients, MaxSteps,
-          WithUni
+          WithUni,
+          DonateAlso     \* further donation targets (module account, blocked fee pool)
 
 NTok == Cardinality(Tokens)
 Lpts == {LptOf(n) : n \in 1..NTok}
@@ -581,7 +679,7 @@ Swap ==
                !.isBuy = buy, !.deadline = dl,
                !.hops = IF i # Std /\ o # Std THEN 2 ELSE 1])
 Donate ==
-  \E who \in Senders, to \in Escs, d \in {Std} \cup Tokens, a \in Donations :
+  \E who \in Senders, to \in Escs \cup DonateAlso, d \in {Std} \cup Tokens, a \in Donations :
     Step([Ev("Donate", who) EXCEPT !.to = to, !.denom = d, !.amt = a])
 EndBlock ==
   /\ st.now < MaxNow
@@ -617,7 +715,7 @@ GenActs(who, to, dl, lo, lo2) ==
        /\ Step([Ev("Swap", who) EXCEPT !.to = to, !.inDenom = i, !.outDenom = o, !.amt = x, !.amt2 = y,
                   !.isBuy = buy, !.deadline = dl, !.hops = IF i # Std /\ o # Std THEN 2 ELSE 1])
   \/ \E d \in {Std} \cup Tokens, a \in Donations :
-       Step([Ev("Donate", who) EXCEPT !.to = RandomElement(Escs), !.denom = d, !.amt = a])
+       Step([Ev("Donate", who) EXCEPT !.to = RandomElement(Escs \cup DonateAlso), !.denom = d, !.amt = a])
   \/ EndBlock
 GenNext ==
   /\ GenActs(RandomElement(Senders), RandomElement(Recipients), RandomElement(Deadlines),
@@ -647,6 +745,15 @@ Act_C02_AddTakesAtMost == [][C02_AddTakesAtMost(st, ev', st')]_vars
 Act_C02_RemoveGivesAtLeast == [][C02_RemoveGivesAtLeast(st, ev', st')]_vars
 Act_C02_Supply == [][C02_Supply(st, ev', st')]_vars
 Act_Rejected_NoEffect == [][Rejected_NoEffect(st, ev', st')]_vars
+
+(* diagnostic clauses that the design satisfies (X01_PoolNotWedged,
+   X01_AddNeverLockedOut and X01_NoPanic do not: the model reaches them) *)
+Act_X01_WedgedForever == [][X01_WedgedForever(st, ev', st')]_vars
+Act_X02_RouteBalanced == [][X02_RouteBalanced(st, ev', st')]_vars
+Act_X02_RoundTripNoGain == [][X02_RoundTripNoGain(st, ev', st', gh)]_vars
+Act_X02_BlockedUntouched == [][X02_BlockedUntouched(st, ev', st')]_vars
+Act_X02_ModuleOnlyGifts == [][X02_ModuleOnlyGifts(st', gh')]_vars
+Act_X02_DonateFrame == [][X02_DonateFrame(st, ev', st')]_vars
 
 (* the absolute time never matters (deadlines are chosen relative to it) *)
 View == [st EXCEPT !.now = 0]
